@@ -5,4 +5,5 @@ CONSTANT Size = "s"
 CONSTANT Only = {}
 CONSTANT NSample = 0
 CONSTANT NCombo = 50
+CONSTANT NScoped = 100
 CHECK_DEADLOCK FALSE
